@@ -2,10 +2,10 @@
   EG.Driver.Faults — model side of the `faults.*` correspondence streams (harness/src/m_faults.rs).
 
   For the styled shapes that have a model (rectangle, circle, ellipse, rounded rectangle) the
-  number `n` of target calls of the fault-free run is the length of the model's call list — the
-  list `EG.C04.prefix_law` speaks about (every adapter forwards each call as exactly one call, so
-  `n` does not depend on the adapter stack) — and `tested` is the number of fault positions the
-  harness enumerates for that `n`. Other drawables return `none` (printed `skip`).
+  number `n` of target calls of the fault-free run is the length of the model's call list (every
+  adapter forwards each call as exactly one call, so `n` does not depend on the adapter stack) — the
+  list of calls `EG.C04.prefix_law_sites` speaks about, for whichever call sites they are made at —
+  and `tested` is the number of fault positions the harness enumerates for that `n` (all of them). Other drawables return `none` (printed `skip`).
 -/
 import EG.Driver.Util
 import EG.Model.StyledRect
@@ -25,14 +25,8 @@ private def Toks.fstyle (t : Toks) : Style × Toks :=
   let (a, t) := t.nat
   (⟨fParseOptColor f, fParseOptColor s, w, fAlignOf a⟩, t)
 
-/-- number of fault positions enumerated for a run of `n` calls: all when `n <= 48`, else the
-first 16, the last 16 and `16 + i*(n-32)/17` for `i = 1..16` (deduplicated). -/
-private def testedCount (n : Nat) : Nat :=
-  if n ≤ 48 then n
-  else
-    let ks := (List.range 16) ++ (List.range 16).map (fun i => n - 16 + i) ++
-      (List.range 16).map (fun i => 16 + (i + 1) * (n - 32) / 17)
-    ks.eraseDups.length
+/-- number of fault positions enumerated for a run of `n` calls: every `k < n` (no sampling). -/
+private def testedCount (n : Nat) : Nat := n
 
 def handleFaults (stream : String) (t : Toks) : Option String :=
   if stream != "faults.shape" then none else
